@@ -24,7 +24,7 @@ from props._stores_util import (Interner, SEGMENTS, deep, from_json_cfg, gen_cfg
 PROP = "C17"
 READY = True
 DRIVER = "dm_stores"
-LEAN_MODULES = ["DaskModel.Props.C17"]
+LEAN_MODULES = ["DaskModel.Props.C17", "DaskModel.Props.C17b"]
 TABLES = ["ConfigTables"]
 CASE_TIMEOUT_S = 10
 LEVEL_TEXT = (
@@ -514,8 +514,237 @@ def case_env(ctx, inp):
             ctx.branch("env-underscore-name")
 
 
+# ------------------------------------------------------------------------------------------------------------
+# identities of dict objects (lean/DaskModel/Model/ConfigAlias.lean): a nested merge must never store a dict object of
+# one configuration inside another one by reference — invisible in one call, visible in a later one
+# ------------------------------------------------------------------------------------------------------------
+class _Ids:
+    """which Python dict object is which model identity (objects are kept alive so that id() stays unique)"""
+
+    def __init__(self):
+        self.by_obj = {}
+        self.keep = []
+        self.nx = 1
+
+    def label(self, v):
+        """give every dict object of a freshly built input tree the next identities, preorder"""
+        if isinstance(v, dict):
+            self.by_obj[id(v)] = self.nx
+            self.keep.append(v)
+            self.nx += 1
+            for x in v.values():
+                self.label(x)
+
+    def enc(self, it, v):
+        if isinstance(v, dict):
+            return [Sym("n"), self.by_obj[id(v)], [[str(k), self.enc(it, x)] for k, x in v.items()]]
+        return it.leaf(v)
+
+    def enc_real(self, it, v, m, fresh_from):
+        """encode the real object graph next to the model's answer `m`: a known object carries its identity; an unknown
+        (new) object adopts the identity the model has at this position if that one is fresh and still unclaimed,
+        otherwise -1 (which cannot compare equal)"""
+        if not isinstance(v, dict):
+            return it.leaf(v)
+        is_node = isinstance(m, list) and len(m) == 3 and m[0] == "n"
+        oid = self.by_obj.get(id(v))
+        if oid is None:
+            mid = m[1] if is_node else None
+            if isinstance(mid, int) and mid >= fresh_from and mid not in self.by_obj.values():
+                oid = mid
+                self.by_obj[id(v)] = oid
+                self.keep.append(v)
+            else:
+                oid = -1
+        sub = {kv[0]: kv[1] for kv in m[2]} if is_node else {}
+        return [Sym("n"), oid, [[str(k), self.enc_real(it, x, sub.get(str(k)), fresh_from)] for k, x in v.items()]]
+
+
+def _dict_objs(v, out=None):
+    """id() of every dict object reachable from v"""
+    out = {} if out is None else out
+    if isinstance(v, dict) and id(v) not in out:
+        out[id(v)] = v
+        for x in v.values():
+            _dict_objs(x, out)
+    return out
+
+
+def _count_nodes(w, pred):
+    if isinstance(w, list) and len(w) == 3 and w[0] == "n":
+        return (1 if pred(w[1]) else 0) + sum(_count_nodes(kv[1], pred) for kv in w[2])
+    return 0
+
+
+def case_alias(ctx, inp):
+    """function level, identities included: which dict objects does update / merge reuse, create, or (never) borrow"""
+    import dask.config as dc
+    it = Interner()
+    ids = _Ids()
+    if inp["op"] == "merge":
+        ds = [from_json_cfg(d) for d in inp["dicts"]]
+        for d in ds:
+            ids.label(d)
+        nx = ids.nx
+        model = ctx.lean(Sym("cfg-hmerge"), [ids.enc(it, d) for d in ds], nx)
+        ds0 = deep(ds)
+        inputs = {}
+        for d in ds:
+            _dict_objs(d, inputs)
+        res = dc.merge(*ds)
+        impl = [Sym("ok"), ids.enc_real(it, res, model[1] if model[0] == "ok" else None, nx)]
+        ctx.eq("merge, with the identity of every dict object", model[:2], impl)
+        borrowed = [k for k in _dict_objs(res) if k in inputs]
+        if borrowed:
+            ctx.fail("merge returned a configuration that shares a dict object with one of its arguments "
+                     "(a later change of the result would change the argument)", observed=[res, len(borrowed)])
+        if [ordered(d) for d in ds] != [ordered(d) for d in ds0]:
+            ctx.fail("merge modified one of its arguments", observed=ds, expected=ds0)
+        if len(_dict_objs(res)) > 1:
+            ctx.branch("alias-merge-nested")
+        return
+    old, new = from_json_cfg(inp["old"]), from_json_cfg(inp["new"])
+    dflt = None if inp.get("defaults") is None else from_json_cfg(inp["defaults"])
+    prio = inp["priority"]
+    ids.label(old)
+    ids.label(new)
+    nx = ids.nx
+    model = ctx.lean(Sym("cfg-hupdate"), False, Sym(prio), ids.enc(it, old), ids.enc(it, new),
+                     None if dflt is None else it.enc(dflt), nx)
+    new0, dflt0 = deep(new), deep(dflt)
+    foreign = _dict_objs(new)
+    if dflt is not None:
+        _dict_objs(dflt, foreign)
+    try:
+        res = dc.update(old, new, priority=prio, defaults=dflt)
+    except (TypeError, AttributeError):
+        ctx.eq("update (identities)", model, [Sym("raised")])
+        ctx.branch("alias-update-raised")
+        return
+    impl = [Sym("ok"), ids.enc_real(it, res, model[1] if model[0] == "ok" else None, nx)]
+    ctx.eq("update, with the identity of every dict object", model[:2], impl)
+    borrowed = [k for k in _dict_objs(res) if k in foreign]
+    if borrowed:
+        ctx.fail("update stored a dict object of `new`/`defaults` inside `old` by reference "
+                 "(a later change of `old` would change `new`)", observed=[res, len(borrowed)])
+    if ordered(new) != ordered(new0) or ordered(dflt) != ordered(dflt0):
+        ctx.fail("update modified `new` or `defaults`", observed=[new, dflt], expected=[new0, dflt0])
+    if model[0] == "ok":
+        if _count_nodes(model[1], lambda i: i >= nx):
+            ctx.branch("alias-new-dict-created")
+        if _count_nodes(model[1], lambda i: 1 < i < nx):
+            ctx.branch("alias-existing-dict-updated-in-place")
+        if ctx.lean(Sym("cfg-hupdate"), True, Sym(prio), ids.enc(it, old), ids.enc(it, new),
+                    None if dflt is None else it.enc(dflt), nx) != model:
+            ctx.branch("alias-sharing-shortcut-would-differ")
+
+
+def _wire_hop(op):
+    k = op[0]
+    if k == "merge":
+        return [Sym("merge"), list(op[1])]
+    if k == "update":
+        return [Sym("update"), Sym(op[1]), op[2], op[3], op[4]]
+    if k == "set":
+        return [Sym("set"), op[1], op[2], op[3]]
+    if k == "updefaults":
+        return [Sym("updefaults"), op[1], op[2]]
+    return [Sym("refresh"), op[1]]
+
+
+def case_hist(ctx, inp):
+    """API level: a history of merge / update / set / update_defaults / refresh calls over several named configurations.
+    After EVERY call: all configurations (values and object identities) against the model, and the statement's own
+    reading — a call changes only its target; no two configurations ever share a dict object."""
+    import dask.config as dc
+    it = Interner()
+    ids = _Ids()
+    vs = [from_json_cfg(v) for v in inp["vars"]]
+    for v in vs:
+        ids.label(v)
+    ops = inp["ops"]
+    states = ctx.lean(Sym("cfg-hist"), False, [ids.enc(it, v) for v in vs], ids.nx, [_wire_hop(op) for op in ops])
+    dl = []            # the `defaults` list handed to update_defaults / refresh (holds the variables themselves)
+    dl_idx = []
+    fresh_from = ids.nx
+    seen = []
+    for step, op in enumerate(ops):
+        st = states[step] if step < len(states) else [Sym("missing")]
+        before = [ordered(v) for v in vs]
+        kind = op[0]
+        target = None
+        try:
+            if kind == "merge":
+                vs.append(dc.merge(*[vs[i] for i in op[1]]))
+                target = len(vs) - 1
+            elif kind == "update":
+                target = op[2]
+                r = dc.update(vs[op[2]], vs[op[3]], priority=op[1], defaults=None if op[4] is None else vs[op[4]])
+                if r is not vs[op[2]]:
+                    ctx.fail("update did not operate in place")
+            elif kind == "set":
+                target = op[1]
+                dc.set({op[2]: op[3]}, config=vs[op[1]])
+            elif kind == "updefaults":
+                target = op[2]
+                dc.update_defaults(vs[op[1]], config=vs[op[2]], defaults=dl)
+                dl_idx.append(op[1])
+                if not (dl and dl[-1] is vs[op[1]]):
+                    ctx.fail("update_defaults did not register the new defaults", observed=len(dl))
+            else:
+                target = op[1]
+                dc.refresh(config=vs[op[1]], defaults=dl, paths=[], env={})
+        except (TypeError, AttributeError, ValueError) as e:
+            ctx.eq(f"history step {step} ({kind}) raises", st[:1], [Sym("raised")])
+            ctx.branch("hist-call-raised")
+            if kind == "set" and [ordered(v) for v in vs] != before:
+                ctx.fail("a set call that raises left a configuration changed", observed=[op, repr(e)])
+            return
+        seen.append(kind)
+        if st[0] != "ok":
+            ctx.disagree(f"history step {step} ({kind})", st, [Sym("ok")])
+            return
+        if st[4] is not True:
+            ctx.disagree(f"history step {step}: identity model and value model differ (hstep/vstep)", st, None)
+        impl_vars = [ids.enc_real(it, v, st[1][j] if j < len(st[1]) else None, fresh_from) for j, v in enumerate(vs)]
+        fresh_from = st[3]
+        if not ctx.eq(f"history step {step} ({kind}): every configuration, with dict identities", [st[1], st[2]],
+                      [impl_vars, dl_idx]):
+            # keep going with the oracles below, but the identities are no longer in step with the model
+            pass
+        for j, b in enumerate(before):
+            if j != target and ordered(vs[j]) != b:
+                ctx.fail(f"{kind} modified a configuration that was only an input / not involved "
+                         "(dict object shared by reference with an earlier result)",
+                         observed=[step, op, j, vs[j]], expected=b)
+        owners = {}
+        for j, v in enumerate(vs):
+            for k in _dict_objs(v):
+                if k in owners and owners[k] != j:
+                    ctx.fail("two configurations share a dict object (a later change of one would change the other)",
+                             observed=[step, op, owners[k], j])
+                owners.setdefault(k, j)
+        if kind == "refresh" and "updefaults" in seen:
+            # documented: refresh = defaults (first registered wins) + files/environment (none here)
+            want = {}
+            for i in dl_idx:
+                dc.update(want, deep(inp_var_now(vs, i)), priority="old")
+            if ordered(vs[target]) != ordered(want):
+                ctx.fail("refresh did not restore the registered defaults", observed=vs[target], expected=want)
+    if "set" in seen and "merge" in seen and seen.index("merge") < len(seen) - 1 - seen[::-1].index("set"):
+        ctx.branch("hist-set-after-merge")
+    if "refresh" in seen and "updefaults" in seen and "set" in seen:
+        ctx.branch("hist-updefaults-set-refresh")
+    if len(seen) >= 4:
+        ctx.branch("hist-4+-calls")
+
+
+def inp_var_now(vs, i):
+    return vs[i]
+
+
 CASES = {"set": case_set, "prog": case_prog, "get": case_get, "update": case_update, "merge": case_merge,
-         "env": case_env, "glue": case_glue}
+         "env": case_env, "glue": case_glue, "alias": case_alias, "hist": case_hist}
 
 # ------------------------------------------------------------------------------------------------------------
 # generators
@@ -581,6 +810,92 @@ def _small_cfgs():
     yield {"a": 5, "x": ["s", "hello"]}
 
 
+HIST_SEGS = ["a", "b", "x", "a-b", "a_b"]
+
+
+def _hist_cfg(rng, depth=3):
+    """small nested configs over few names, so that histories collide on the same nested keys (int / None leaves)"""
+    return gen_cfg(rng, depth=depth, width=3, segs=HIST_SEGS, leaf=gen_leaf_plain)
+
+
+def _gen_hist(rng):
+    nvars = rng.randint(2, 4)
+    vs = [_hist_cfg(rng) for _ in range(nvars)]
+    if rng.random() < 0.5:
+        vs[rng.randrange(nvars)] = {}
+    ops = []
+    n = nvars
+    registered = set()     # the model's precondition: a configuration that is itself registered as defaults is never
+    #                        the target of refresh / update_defaults (that would be a self-update through the list)
+    for _ in range(rng.randint(2, 7)):
+        r = rng.random()
+        if r < 0.22:
+            k = rng.randint(1, min(3, n))
+            ops.append(["merge", rng.sample(range(n), k)])
+            n += 1
+        elif r < 0.45:
+            dst, src = rng.sample(range(n), 2)
+            prio = rng.choice(["new", "old", "new-defaults"])
+            dflt = rng.choice([j for j in range(n) if j != dst]) if prio == "new-defaults" or rng.random() < 0.1 else None
+            ops.append(["update", prio, dst, src, dflt])
+        elif r < 0.75:
+            ops.append(["set", rng.randrange(n), gen_key(rng, rng.choice(vs), segs=HIST_SEGS), rng.randint(10, 19)])
+        elif r < 0.9:
+            new, cfg = rng.sample(range(n), 2)
+            if cfg not in registered:
+                ops.append(["updefaults", new, cfg])
+                registered.add(new)
+        else:
+            cands = [j for j in range(n) if j not in registered]
+            if cands:
+                ops.append(["refresh", rng.choice(cands)])
+    return {"vars": vs, "ops": ops}
+
+
+def _directed_histories():
+    base = {"a": {"x": 1, "b": {"y": 2}}, "q": 3}
+    over = {"a": {"z": 4}, "c": {"w": 5}}
+    # merge, then change the result: the arguments must not follow
+    yield "hist", {"vars": [base, over], "ops": [["merge", [0, 1]], ["set", 2, "a.b.y", 10], ["set", 2, "c.w", 11],
+                                                 ["set", 2, "a.new", 12]]}
+    yield "hist", {"vars": [base, over, {"a": {"b": {"t": 7}}, "c": {"v": 8}}],
+                   "ops": [["merge", [0, 1]], ["update", "new", 3, 2, None], ["update", "old", 3, 1, None]]}
+    yield "hist", {"vars": [base, {}], "ops": [["update", "new", 1, 0, None], ["set", 1, "a.b.y", 10], ["set", 1, "a.x", 11]]}
+    # update_defaults, user sets a value, refresh must bring the registered default back
+    yield "hist", {"vars": [{"a": {"b": 1, "c": {"d": 2}}}, {}],
+                   "ops": [["updefaults", 0, 1], ["set", 1, "a.b", 10], ["set", 1, "a.c.d", 11], ["refresh", 1]]}
+    yield "hist", {"vars": [{"a": {"b": 1}}, {"a": {"c": {"d": 2}}}, {"x": 0}],
+                   "ops": [["updefaults", 0, 2], ["updefaults", 1, 2], ["set", 2, "a.c.d", 10], ["set", 2, "a-b", 5],
+                           ["refresh", 2], ["set", 2, "a.b", 11], ["refresh", 2]]}
+    yield "hist", {"vars": [{"a": {"b": 1}}, {"a": {"b": 1, "k": 0}}, {"a": {"b": 2, "c": {"d": 3}}}],
+                   "ops": [["update", "new-defaults", 1, 2, 0], ["set", 1, "a.c.d", 10], ["merge", [1, 2]],
+                           ["set", 3, "a.c.e", 11]]}
+
+
+def _exhaustive_histories():
+    """every history of <= 3 calls over a small alphabet on three fixed configurations"""
+    import itertools
+    vs = [{"a": {"b": 1}}, {"a": {"c": {"d": 2}}, "x": 0}, {}]
+    alphabet = [["merge", [0, 1]], ["merge", [1, 0]], ["update", "new", 2, 0, None], ["update", "new", 2, 1, None],
+                ["update", "old", 2, 1, None], ["update", "new", 0, 1, None], ["update", "new-defaults", 2, 1, 0],
+                ["set", 2, "a.c.d", 10], ["set", 2, "a.b", 11], ["set", 0, "a.c.e", 12], ["set", 3, "a.c.d", 13],
+                ["updefaults", 0, 2], ["updefaults", 1, 2], ["refresh", 2], ["update", "new", 2, 3, None]]
+    for k in (1, 2, 3):
+        for ops in itertools.product(alphabet, repeat=k):
+            nv = 3
+            ok = True
+            for op in ops:
+                used = [op[1]] if op[0] in ("set", "refresh") else \
+                    list(op[1]) if op[0] == "merge" else [op[1], op[2]] if op[0] == "updefaults" else [op[2], op[3]]
+                if any(u >= nv for u in used):
+                    ok = False
+                    break
+                if op[0] == "merge":
+                    nv += 1
+            if ok:
+                yield "hist", {"vars": vs, "ops": [list(op) for op in ops]}
+
+
 def generate(ctx):
     from props._stores_util import ensure_budget
     ensure_budget(ctx, quick_scale=3.0)
@@ -633,6 +948,24 @@ def generate(ctx):
         yield "update", {"old": old, "new": new, "priority": prio, "defaults": dflt}
     for _ in range(ctx.n(200, 2000)):
         yield "merge", {"dicts": [gen_cfg(rng, segs=SEG_UPD) for _ in range(rng.randint(0, 4))]}
+    # identities: function level (same input distribution as `update` / `merge`) and histories
+    for _ in range(ctx.n(300, 4000)):
+        old = gen_cfg(rng, segs=SEG_UPD)
+        new = gen_cfg(rng, segs=SEG_UPD)
+        prio = rng.choice(["new", "old", "new-defaults"])
+        dflt = None
+        if prio == "new-defaults" or rng.random() < 0.1:
+            dflt = gen_cfg(rng, segs=SEG_UPD, leaf=gen_leaf_plain)
+            if rng.random() < 0.5:
+                _overlay(dflt, old, rng)
+        yield "alias", {"op": "update", "old": old, "new": new, "priority": prio, "defaults": dflt}
+    for _ in range(ctx.n(100, 1500)):
+        yield "alias", {"op": "merge", "dicts": [gen_cfg(rng, segs=SEG_UPD) for _ in range(rng.randint(0, 4))]}
+    yield from _directed_histories()
+    for _ in range(ctx.n(300, 4000)):
+        yield "hist", _gen_hist(rng)
+    if ctx.thorough():
+        yield from _exhaustive_histories()
     raw_values = ["123", "1.5", "true", "False", "None", "null", "hello", "[1, 2]", "{'a': 1}", "'quoted'", "", "a b",
                   "TRUE", "1e3", "(1, 2)", "foo.bar", "NONE", "nUlL", "FALSE", "none ", "0", "-1", "1_000", "0x10", "tRuE"]
     names = ["A", "A__B", "A__C", "A_B", "A-B", "X", "X__Y", "Q__R_S", "a__b", "A__B__C", "", "A___B", "A__", "__A",
